@@ -204,9 +204,9 @@ impl Expr {
         match self {
             Self::Number(n) => Ok(*n),
             Self::Variable(name) => {
-                let value = ctx
-                    .get(name)
-                    .expect("Variable not found. This should have been found at parse time");
+                let Some(value) = ctx.get(name) else {
+                    return Err(ExprErrorKind::UnassignedVariable(name.clone()).into());
+                };
                 if let crate::OutputValue::Value(n) = value {
                     Ok(n)
                 } else {
